@@ -428,7 +428,21 @@ def cleanup(d):
 
 
 def differential(rep, binary, cases, sdir, tag, canon=None, oracle=None, clause=None, nontrivial=None,
-                 abort_fields=None, impl_args=(), model_cases=None, impl_env=None):
+                 abort_fields=None, impl_args=(), model_cases=None, impl_env=None, post=None, batch=1200):
+    """Batched front end of _differential: big case lists are processed `batch` cases at a time so that the outputs of the
+    implementation and of the model (long traces) never sit in memory all at once.  post(k, case, impl_line, model_line) is
+    called for every case (k = position in `cases`) - callers keep what they need.  Returns (impl, model) only when everything
+    fitted in one batch, else (None, None)."""
+    if len(cases) <= batch:
+        return _differential(rep, binary, cases, sdir, tag, canon, oracle, clause, nontrivial, abort_fields, impl_args, model_cases, impl_env, post, 0)
+    for b0 in range(0, len(cases), batch):
+        _differential(rep, binary, cases[b0:b0 + batch], sdir, tag, canon, oracle, clause, nontrivial, abort_fields, impl_args,
+                      model_cases[b0:b0 + batch] if model_cases is not None else None, impl_env, post, b0)
+    return None, None
+
+
+def _differential(rep, binary, cases, sdir, tag, canon=None, oracle=None, clause=None, nontrivial=None,
+                  abort_fields=None, impl_args=(), model_cases=None, impl_env=None, post=None, base=0):
     """Runs implementation and extracted model on the same cases.
     canon(case, line) -> canonical form; oracle(case, impl_line) -> None | message (property-level, independent);
     clause(case) -> name of the clause (for known-finding keys)."""
@@ -466,6 +480,7 @@ def differential(rep, binary, cases, sdir, tag, canon=None, oracle=None, clause=
     for k, c in enumerate(cases):
         rep.evaluations += 1
         i, m = impl[k], model[k]
+        if post: post(base + k, c, i, m)
         cl = clause(c) if clause else c.split()[0]
         if nontrivial and nontrivial(c, i):
             rep.nontrivial.add(hashlib.sha256(c.encode()).hexdigest()[:16])
@@ -488,7 +503,7 @@ def differential(rep, binary, cases, sdir, tag, canon=None, oracle=None, clause=
         agree += 1
     rep.count("agree:" + tag, agree)
     rep.count("cases:" + tag, len(cases))
-    if cases:
+    if cases and base == 0:
         rep.sample(dict(case=cases[0][:200], impl=impl[0][:200]))
         rep.sample(dict(case=cases[len(cases) // 2][:200], impl=impl[len(cases) // 2][:200]))
     return impl, model
